@@ -51,21 +51,38 @@ class FakeConn(object):
         pass
 
 
-def request_bytes(body, path="/", extra_headers=()):
-    head = ["POST %s HTTP/1.1" % path, "Host: h", "Content-Type: application/json", "Content-Length: %d" % len(body),
+class GuardedBytesIO(io.BytesIO):
+    """BytesIO that notices a reader spinning on the end of the stream (a handler loop without an EOF exit)."""
+
+    eof_reads = 0
+    LIMIT = 2000
+
+    def read(self, n=-1):
+        d = io.BytesIO.read(self, n)
+        if not d and n != 0:
+            self.eof_reads += 1
+            if self.eof_reads > self.LIMIT:
+                raise OSError("verification harness: %d reads after the end of the request stream" % self.eof_reads)
+        return d
+
+
+def request_bytes(body, path="/", extra_headers=(), declared=None):
+    head = ["POST %s HTTP/1.1" % path, "Host: h", "Content-Type: application/json",
+            "Content-Length: %d" % (len(body) if declared is None else declared),
             "Connection: close"] + list(extra_headers)
     return ("\r\n".join(head) + "\r\n\r\n").encode("latin-1") + body
 
 
-def post(server, body, path="/", body_pieces=None, unbuffered=False, handler_class=SimpleJSONRPCRequestHandler):
+def post(server, body, path="/", body_pieces=None, unbuffered=False, handler_class=SimpleJSONRPCRequestHandler, declared=None):
     """Feeds one POST to the real handler; returns (status, [(name, value)...], body_bytes).
 
     body_pieces: optional list of byte strings: the body is delivered to the
     handler's rfile in exactly these reads (header block is delivered first).
     """
-    head = request_bytes(body, path)[: -len(body)] if body else request_bytes(body, path)
+    head = request_bytes(body, path, declared=declared)[: -len(body)] if body else request_bytes(body, path, declared=declared)
     if body_pieces is None:
-        rfile = io.BytesIO(head + body)
+        rfile = GuardedBytesIO(head + body)
+        post.last_rfile = rfile
     else:
         raw = ChunkedRaw([head] + list(body_pieces))
         # BufferedReader.read(n) loops until n bytes or EOF, like socket.makefile('rb'); the raw
